@@ -316,6 +316,11 @@ func (bn *baseNode) setIds(uid, gid int) {
 	}
 }
 
+// isOwner reports whether the user u is the owner of the node.
+func (bn *baseNode) isOwner(u avfs.UserReader) bool {
+	return bn.uid == u.Uid()
+}
+
 // Unlock unlocks the node.
 func (bn *baseNode) Unlock() {
 	bn.mu.Unlock()
@@ -379,6 +384,13 @@ func (dn *dirNode) dirEntries() []fs.DirEntry {
 	sort.Slice(entries, func(i, j int) bool { return entries[i].Name() < entries[j].Name() })
 
 	return entries
+}
+
+// stickyFor reports whether the sticky bit of the directory restricts the user u to its own entries :
+// as on Linux, an entry of a directory with the sticky bit is removed or renamed
+// only by an administrator, the owner of the directory or the owner of the entry.
+func (dn *dirNode) stickyFor(u avfs.UserReader) bool {
+	return dn.mode&fs.ModeSticky != 0 && !u.IsAdmin() && dn.uid != u.Uid()
 }
 
 // setOwner sets the owner of the directory node.
